@@ -56,6 +56,7 @@ def run(rep, tier):
     rule_placement_cpp(rep, m)
     rule_increment(rep, m)
     rule_helpers(rep, m)
+    rule_sessions(rep, tier)
     rep.floor("C14.D1", 3 + 24)
     rep.floor("C14.D2", 3)
     rep.floor("C14.D3", 13)
@@ -402,3 +403,24 @@ def _check_set_nonce(rep, rid, m, g, cls, lay):
 def affine_ptr(p, off):
     from .affine import Ptr
     return Ptr(p.obj, p.off + off) if hasattr(p, "off") else Ptr(p.obj, off)
+
+
+def rule_sessions(rep, tier):
+    """D4 (mode level, bounded shapes, all key / data values): in a session
+    that keeps one incremental state, packet i is processed under nonce + i -
+    for a sender (C01.M multipacket) and for a receiver, also when a packet in
+    the middle is forged and rejected: the stored nonce is advanced by start()
+    and by nothing else."""
+    from . import modecheck, modes
+    rid = "C14.D4"
+    rep.rule(rid, "receiver sessions: packet i is accepted under nonce + i, a rejected packet does not disturb the following ones")
+    prep = modes.prepare(tier, cfgs=[repo.Config("c64")] if tier == "quick" else None)
+    cases = []
+    for js, cname, layout, maxs, units in prep:
+        for alg in ("128", "128a", "80pq"):
+            for (a, n) in ([(1, 3)] if tier == "quick" else [(0, 0), (1, 3), (8, 17), (5, 33)]):
+                cases.append((js, cname, layout, "case_aead_decrypt_session", (alg, a, n),
+                              "%s session first packet ad %d message %d" % (alg, a, n), "ascon%s_aead_decrypt_finalize" % alg))
+    for d in modecheck.run_cases("C14", rid, tier, cases, None):
+        rep.merge(d)
+    rep.floor_discharged(rid, len(cases))
